@@ -134,6 +134,16 @@ var c06Spellings = []c06Spelling{
 		r.Header.Set("X-Forwarded-For", a+" , 172.16.0.1")
 	}},
 	{"real-ip", func(r *http.Request, a string) { r.RemoteAddr = "172.16.0.6:1"; r.Header.Set("X-Real-IP", a) }},
+	// front proxies that write the client's address together with its source port (host:port,
+	// [v6]:port): the port differs from connection to connection, the client is the same
+	{"xff-with-port", func(r *http.Request, a string) {
+		r.RemoteAddr = "172.16.0.5:1"
+		r.Header.Set("X-Forwarded-For", hostPort(a, "50000"))
+	}},
+	{"xff-list-with-other-port", func(r *http.Request, a string) {
+		r.RemoteAddr = "172.16.0.5:1"
+		r.Header.Set("X-Forwarded-For", hostPort(a, "50009")+", 172.16.0.1")
+	}},
 }
 
 func hostPort(a, port string) string {
@@ -333,11 +343,24 @@ func c06Append(r *vres.Report, maxN, clients int) {
 					}
 					prev[c] = got
 				}
+				// somebody looks at the pool (admin listing, metrics, health): observing changes
+				// nothing, every client is where it was
+				k.lb.ListBackends()
+				k.lb.GetMetricsCollector().GetMetrics()
+				k.lb.strategy.GetBackends()
+				for c := 0; c < clients; c++ {
+					got, _ := servedIndex(k, addr(c*7+1))
+					evals++
+					if got != prev[c] {
+						r.Violate("C06/ip_hash_consistent/affinity-broken/after-a-listing", fmt.Sprintf("names %s, pool of %d: client %s was served by %q, and after the backends were merely listed (admin listing, metrics) by %d", scheme, n, addr(c*7+1), names[prev[c]], got), n, map[string]interface{}{"n": n, "client": addr(c*7 + 1), "names": scheme})
+						break
+					}
+				}
 			}
 		})
 	}
 	r.AddScenario(vres.Scenario{Name: "consistent-append-history", Engine: "H", Executions: 5, States: int64(5 * maxN), Transitions: evals, Outcomes: maxN,
-		Bound: fmt.Sprintf("append history 1->%d under three naming schemes (names sorting in append order, in reverse, in neither), with the strategy configured or switched to at run time, %d enumerated client addresses re-asked after every append", maxN, clients), Exhaustive: true,
+		Bound: fmt.Sprintf("append history 1->%d under three naming schemes (names sorting in append order, in reverse, in neither), with the strategy configured or switched to at run time, %d enumerated client addresses re-asked after every append and again after the pool was listed (admin listing, metrics)", maxN, clients), Exhaustive: true,
 		Sample: map[string]interface{}{"clients_moved_at_each_append": moves}, Extra: map[string]interface{}{"wall_s": time.Since(start).Seconds()}})
 }
 
